@@ -306,18 +306,25 @@ impl<E: FieldElement> OpFlags<E> {
         no_shift_flags[5] = no_shift_flags[4] + mov4_flag;
         no_shift_flags[6] = no_shift_flags[5] + mov5_flag;
         no_shift_flags[7] = no_shift_flags[6] + mov6_flag;
-        no_shift_flags[8] =
-            no_shift_flags[7] + mov7_flag + degree7_op_flags[24] - degree7_op_flags[28];
+        // PIPE and MSTREAM replace the top 8 items and increment the pointer in position 12; the
+        // other items from position 8 on do not change
+        let pipe_mstream_flag = degree5_op_flags[2] + degree5_op_flags[3];
+
+        no_shift_flags[8] = no_shift_flags[7] + mov7_flag + degree7_op_flags[24]
+            - degree7_op_flags[28]
+            + pipe_mstream_flag;
 
         no_shift_flags[9] = no_shift_flags[8] + mov8_flag;
         no_shift_flags[10] = no_shift_flags[9];
         no_shift_flags[11] = no_shift_flags[9];
-        // SWAPW3; SWAPW2; HPERM
-        no_shift_flags[12] =
-            no_shift_flags[9] - degree7_op_flags[29] + degree7_op_flags[28] + degree5_op_flags[0];
-        no_shift_flags[13] = no_shift_flags[12];
-        no_shift_flags[14] = no_shift_flags[12];
-        no_shift_flags[15] = no_shift_flags[12];
+        // SWAPW3; SWAPW2; HPERM; not PIPE, MSTREAM (position 12 holds their pointer)
+        no_shift_flags[12] = no_shift_flags[9] - degree7_op_flags[29]
+            + degree7_op_flags[28]
+            + degree5_op_flags[0]
+            - pipe_mstream_flag;
+        no_shift_flags[13] = no_shift_flags[12] + pipe_mstream_flag;
+        no_shift_flags[14] = no_shift_flags[13];
+        no_shift_flags[15] = no_shift_flags[13];
 
         // -------------------------- left shift composite flags computation ----------------------
 
@@ -873,6 +880,18 @@ impl<E: FieldElement> OpFlags<E> {
     #[inline(always)]
     pub fn mpverify(&self) -> E {
         self.degree5_op_flags[get_op_index(Operation::MpVerify.op_code())]
+    }
+
+    /// Operation Flag of PIPE operation.
+    #[inline(always)]
+    pub fn pipe(&self) -> E {
+        self.degree5_op_flags[get_op_index(Operation::Pipe.op_code())]
+    }
+
+    /// Operation Flag of MSTREAM operation.
+    #[inline(always)]
+    pub fn mstream(&self) -> E {
+        self.degree5_op_flags[get_op_index(Operation::MStream.op_code())]
     }
 
     /// Operation Flag of SPLIT operation.
